@@ -127,7 +127,8 @@ enum MChunk {
 enum MOp {
     Send(u16, u32, Pay),
     Pkt(Vec<MChunk>),
-    Wake(bool),
+    /// a phase in which the harness only listens (timer wake-ups of the endpoint)
+    Silence(u64),
 }
 struct Rec {
     op: MOp,
@@ -339,6 +340,10 @@ async fn run_scn(s: &Scn, seed: u64) -> Outcome {
     let mut hang: Option<String> = None;
     let ordered_of: BTreeMap<u16, bool> = s.chans.iter().map(|c| (c.0, c.1)).collect();
     let mut phase_start = Instant::now();
+    // injection times of the SACKs that triggered a fast retransmit (a retransmission came out with them)
+    let mut fr_times: Vec<u64> = vec![];
+    let mut last_sack_time: Option<u64> = None;
+    let mut cooldown_ambiguous = false;
 
     macro_rules! ms { () => { t0.elapsed().as_millis() as u64 } }
 
@@ -397,6 +402,7 @@ async fn run_scn(s: &Scn, seed: u64) -> Outcome {
         }
         let is_flush = matches!(st, Step::Flush(_));
         for w in work {
+            let retx_before = v.retx_chunks;
             match w {
                 Step::Send(sid, text, pay) => {
                     if let Err(e) = submit(&u, &mut v, &ordered_of, sid, text, &pay).await { hang = Some(e); break 'steps; }
@@ -460,7 +466,28 @@ async fn run_scn(s: &Scn, seed: u64) -> Outcome {
                                 let _ = out;
                                 let cum = v.init.wrapping_add(cum_rel as u32);
                                 chunks.push(sack_chunk(cum, rwnd, &gaps, &[]));
-                                mch.push(MChunk::Sack { now: ms!(), cum, rwnd, gaps: gaps.clone() });
+                                // the model compares these time stamps with the 50 ms fast-retransmit cooldown and the 500 ms
+                                // fast-recovery re-entry cooldown (both counted from a SACK that triggered a fast retransmit);
+                                // the endpoint reads its own clock a little later.  Keep every SACK clearly on one side of
+                                // both constants: well inside (< 12 ms / < 380 ms) or, by waiting, well beyond (> 90 ms / > 700 ms)
+                                loop {
+                                    let t = ms!();
+                                    let mut wait = 0u64;
+                                    for t_prev in &fr_times {
+                                        let d = t.saturating_sub(*t_prev);
+                                        if (12..=90).contains(&d) { wait = wait.max(91 - d); }
+                                        if (380..=700).contains(&d) { wait = wait.max(701 - d); }
+                                    }
+                                    if wait == 0 { break; }
+                                    tokio::time::sleep(Duration::from_millis(wait)).await;
+                                }
+                                let t_now = ms!();
+                                for t_prev in &fr_times {
+                                    let d = t_now.saturating_sub(*t_prev);
+                                    if (12..=90).contains(&d) || (380..=700).contains(&d) { cooldown_ambiguous = true; }
+                                }
+                                last_sack_time = Some(t_now);
+                                mch.push(MChunk::Sack { now: t_now, cum, rwnd, gaps: gaps.clone() });
                                 // the oracle's view: from now on these TSNs are acknowledged
                                 if cum_rel > v.cum_rel { v.cum_rel = cum_rel; }
                                 v.p_cum_rel = v.p_cum_rel.max(cum_rel);
@@ -495,41 +522,52 @@ async fn run_scn(s: &Scn, seed: u64) -> Outcome {
                         }
                         Err(e) => { hang = Some(e); break 'steps; }
                     }
+                    if s.timed && v.retx_chunks != retx_before { retry = Some("retransmission timer fired during the scripted phase".into()); }
                     if phase_start.elapsed() > Duration::from_millis(s.rto_ms / 4) {
                         retry = Some(format!("scripted phase took {} ms (> rto/4)", phase_start.elapsed().as_millis()));
                     }
                     let all_acked = v.outstanding().is_empty() && v.expect.values().all(|q| q.is_empty()) && v.next_rel > 0;
                     let end = Instant::now() + Duration::from_millis(dur);
-                    let mut burst: Vec<(Packet, Vec<u8>, u64)> = vec![];
+                    let mut pkts: Vec<(Packet, Vec<u8>, u64)> = vec![];
+                    let mut last: Option<Instant> = None;
                     loop {
                         let now = Instant::now();
-                        if now >= end && burst.is_empty() { break; }
-                        let wait = if burst.is_empty() { end - now } else { Duration::from_millis(6) };
-                        match u.next_raw(wait).await {
-                            Some(raw) => {
-                                if let Some(p) = parse_packet(&raw) {
-                                    observe(&mut v, peer_tag, &p, &raw, s.timed, all_acked);
-                                    burst.push((p, raw.to_vec(), ms!()));
-                                }
-                            }
-                            None => {
-                                if !burst.is_empty() {
-                                    let hb = burst.iter().any(|(p, _, _)| p.chunks.iter().any(|c| c.ty == 4));
-                                    recs.push(Rec { op: MOp::Wake(hb), pkts: std::mem::take(&mut burst) });
-                                }
+                        // past the end: keep listening while packets are still arriving (do not cut a wake-up's burst)
+                        let wait = if now < end { end - now } else {
+                            match last { Some(t) if t.elapsed() < Duration::from_millis(12) => Duration::from_millis(12) - t.elapsed(), _ => break }
+                        };
+                        if let Some(raw) = u.next_raw(wait).await {
+                            if let Some(p) = parse_packet(&raw) {
+                                observe(&mut v, peer_tag, &p, &raw, s.timed, all_acked);
+                                pkts.push((p, raw.to_vec(), ms!()));
+                                last = Some(Instant::now());
                             }
                         }
                     }
-                    phase_start = Instant::now();
+                    recs.push(Rec { op: MOp::Silence(dur), pkts });
+                    // the next scripted phase is measured from the *planned* end of the silence: if this task was
+                    // scheduled late, the endpoint's timers kept running meanwhile
+                    phase_start = end;
                     continue;
                 }
                 Step::Flush(_) => unreachable!(),
             }
+            if v.retx_chunks != retx_before { if let Some(t) = last_sack_time { fr_times.push(t); } }
+            last_sack_time = None;
+            // timed scenarios are written without fast retransmit: a retransmission outside a silence phase means
+            // that a timer (T3 / probe) of the endpoint fired in the middle of the script
+            if s.timed && v.retx_chunks != retx_before { retry = Some("retransmission timer fired during the scripted phase".into()); }
             // a HEARTBEAT outside a silence phase means a timer fired in the middle of the script
             if let Some(r) = recs.last() {
                 if r.pkts.iter().any(|(p, _, _)| p.chunks.iter().any(|c| c.ty == 4)) { retry = Some("heartbeat timer fired during the scripted phase".into()); }
             }
         }
+    }
+    if s.timed && hang.is_none() && phase_start.elapsed() > Duration::from_millis(s.rto_ms / 4) {
+        retry = Some(format!("last scripted phase took {} ms (> rto/4)", phase_start.elapsed().as_millis()));
+    }
+    if cooldown_ambiguous && v.retx_seen && !s.timed {
+        retry = Some("SACKs were injected at a distance close to a cooldown constant and retransmissions occurred".into());
     }
     // everything the last operation left behind
     let mut tail = vec![];
@@ -583,7 +621,7 @@ fn mop_term(m: &MOp) -> String {
             MChunk::Hb(info) => format!("IHb {}", bytes_term(info)),
             MChunk::DataNext => "IDataNext".into(),
         }).collect::<Vec<_>>())),
-        MOp::Wake(hb) => format!("MWake {}", bool_term(*hb)),
+        MOp::Silence(_) => "MSilence".into(),
     }
 }
 fn mop_json(m: &MOp) -> serde_json::Value {
@@ -594,7 +632,7 @@ fn mop_json(m: &MOp) -> serde_json::Value {
             MChunk::Hb(_) => json!("fence"),
             MChunk::DataNext => json!("data"),
         }).collect::<Vec<_>>()}),
-        MOp::Wake(hb) => json!({"timer_wake": {"heartbeat": hb}}),
+        MOp::Silence(ms) => json!({"silence_ms": ms}),
     }
 }
 fn pkt_json(p: &Packet, init: u32) -> serde_json::Value {
@@ -963,33 +1001,41 @@ async fn main() {
         if o.retry.is_some() && c.oracle_fail.is_none() { unstable += 1; c.term = "-".into(); }
         out.push(c);
     }
-    let sem = std::sync::Arc::new(tokio::sync::Semaphore::new(24));
-    let mut handles = vec![];
-    for (i, s) in scns.into_iter().enumerate() {
-        let sem = sem.clone();
-        let seed = args.seed.wrapping_mul(0x9E37_79B9).wrapping_add(i as u64 * 7919 + 13);
-        handles.push(tokio::spawn(async move {
-            let _p = sem.acquire().await.unwrap();
-            let mut tries = 0;
-            loop {
-                let o = run_scn(&s, seed.wrapping_add(tries)).await;
-                tries += 1;
-                if o.retry.is_some() && o.hang.is_none() && o.view.fails.is_empty() && tries < 4 { continue; }
-                return (s, o, tries);
-            }
-        }));
-    }
-    for h in handles {
-        let (s, o, tries) = h.await.unwrap();
-        retries += (tries - 1) as u64;
-        pk += o.view.packets; fr += o.view.fresh_chunks; rt += o.view.retx_chunks;
-        let mut c = case_of(&s, &o);
-        if o.retry.is_some() && c.oracle_fail.is_none() {
-            // timing could not be pinned down in 4 attempts: the direct oracle still applies, the model comparison does not
-            unstable += 1;
-            c.term = "-".into();
+    // timed scenarios (real timers of the endpoint matter) run before the bulk of untimed scripts and only a
+    // few at a time, so that the harness' own load does not stretch their scripted phases
+    let (timed, untimed): (Vec<Scn>, Vec<Scn>) = scns.into_iter().partition(|s| s.timed);
+    let mut base = 0usize;
+    for (group, width) in [(timed, 4usize), (untimed, 24usize)] {
+        let sem = std::sync::Arc::new(tokio::sync::Semaphore::new(width));
+        let mut handles = vec![];
+        let n = group.len();
+        for (i, s) in group.into_iter().enumerate() {
+            let sem = sem.clone();
+            let seed = args.seed.wrapping_mul(0x9E37_79B9).wrapping_add((base + i) as u64 * 7919 + 13);
+            handles.push(tokio::spawn(async move {
+                let _p = sem.acquire().await.unwrap();
+                let mut tries = 0;
+                loop {
+                    let o = run_scn(&s, seed.wrapping_add(tries)).await;
+                    tries += 1;
+                    if o.retry.is_some() && o.hang.is_none() && o.view.fails.is_empty() && tries < 5 { continue; }
+                    return (s, o, tries);
+                }
+            }));
         }
-        out.push(c);
+        base += n;
+        for h in handles {
+            let (s, o, tries) = h.await.unwrap();
+            retries += (tries - 1) as u64;
+            pk += o.view.packets; fr += o.view.fresh_chunks; rt += o.view.retx_chunks;
+            let mut c = case_of(&s, &o);
+            if o.retry.is_some() && c.oracle_fail.is_none() {
+                // timing could not be pinned down in 5 attempts: the direct oracle still applies, the model comparison does not
+                unstable += 1;
+                c.term = "-".into();
+            }
+            out.push(c);
+        }
     }
     let gen = json!({"seed": args.seed, "distribution": stats, "retries_for_timing": retries, "timing_unstable_cases": unstable,
         "packets_observed": pk, "fresh_data_chunks": fr, "retransmitted_data_chunks": rt});
